@@ -28,6 +28,17 @@ Definition g_inits (g : graph) := let 'Graph _ _ i _ _ := g in i.
 Definition g_body (g : graph) := let 'Graph _ _ _ b _ := g in b.
 Definition g_outs (g : graph) := let 'Graph _ _ _ _ o := g in o.
 
+(* node.attributes.values(): a GRAPH attribute, a GRAPHS attribute, anything else *)
+Inductive attr : Type := AGraph (g : graph) | AGraphs (gs : list graph) | AOther.
+Definition attr_is_graph (a : attr) : bool := match a with AGraph _ => true | _ => false end.
+Definition attr_is_graphs (a : attr) : bool := match a with AGraphs _ => true | _ => false end.
+Definition attr_as_graph (a : attr) : graph := match a with AGraph g => g | _ => Graph 0 [] [] [] [] end.
+Definition attr_as_graphs (a : attr) : list graph := match a with AGraphs gs => gs | _ => [] end.
+Definition attr_graphs (a : attr) : list graph :=
+  match a with AGraph g => [g] | AGraphs gs => gs | AOther => [] end.
+(* initialized_values, all_nodes, value_stack, visited_nodes, visited_values *)
+Definition fstate5 : Type := (list nat * list nat * list nat * list nat * list nat)%type.
+
 Definition mem (x : nat) (l : list nat) : bool := existsb (Nat.eqb x) l.
 Definition onat_eqb (a b : option nat) : bool := option_eqb Nat.eqb a b.
 
@@ -37,6 +48,12 @@ Fixpoint somes (l : list (option nat)) : list nat :=
   | Some v :: r => v :: somes r
   | None :: r => somes r
   end.
+
+(* Python containers as the translated code (Gen/C18Gen.v) uses them: a set is a duplicate-free list (set.add),
+   a list used as a stack keeps its top at the head (append = push, pop = head), list.append adds at the end *)
+Definition set_add (x : nat) (s : list nat) : list nat := if mem x s then s else x :: s.
+Definition stack_push (x : nat) (s : list nat) : list nat := x :: s.
+Definition list_append (l : list nat) (x : nat) : list nat := l ++ [x].
 
 Fixpoint dedup (l : list nat) : list nat :=
   match l with
@@ -107,7 +124,7 @@ Section Find.
   Definition find_step (v : nat) (st : list nat) (s : fstate) : list nat * fstate :=
     if mem v (f_vals s) then (st, s)
     else
-      let ini := if isinit v then v :: f_inits s else f_inits s in
+      let ini := if isinit v then set_add v (f_inits s) else f_inits s in
       let vv := v :: f_vals s in
       match prod v with
       | Some n =>
@@ -301,6 +318,22 @@ Fixpoint add_usage (g v : nat) (u : usages) : res usages :=
   | (k, l) :: r =>
       if Nat.eqb k g then Ok ((k, if mem v l then l else l ++ [v]) :: r)
       else res_bind (add_usage g v r) (fun r' => Ok ((k, l) :: r'))
+  end.
+
+(* `for x in l: <body>` over the usages dict where the body may raise (res) or `break` (None) *)
+Fixpoint py_for_res {A} (f : usages -> A -> res usages) (l : list A) (u : usages) : res usages :=
+  match l with
+  | [] => Ok u
+  | x :: r => match f u x with Ok u' => py_for_res f r u' | Raise e => Raise e end
+  end.
+Fixpoint py_for_break {A} (f : usages -> A -> option (res usages)) (l : list A) (u : usages) : res usages :=
+  match l with
+  | [] => Ok u
+  | x :: r => match f u x with
+              | None => Ok u
+              | Some (Ok u') => py_for_break f r u'
+              | Some (Raise e) => Raise e
+              end
   end.
 
 Section Analyze.
